@@ -299,6 +299,17 @@ impl<Sink: TokenSink> XmlTokenizer<Sink> {
     // NB: this doesn't do input stream preprocessing or set the current input
     // character.
     fn eat(&self, input: &BufferQueue, pat: &str) -> Option<bool> {
+        if self.ignore_lf.get() {
+            // A CR was just consumed (as LF): the LF of a CRLF pair is not input.
+            // Keep the flag if the LF may still arrive with the next chunk.
+            if let Some(c) = self.peek(input) {
+                self.ignore_lf.set(false);
+                if c == '\n' {
+                    input.next();
+                }
+            }
+        }
+
         input.push_front(replace(&mut *self.temp_buf.borrow_mut(), StrTendril::new()));
         match input.eat(pat, u8::eq_ignore_ascii_case) {
             None if self.at_eof.get() => Some(false),
